@@ -321,6 +321,140 @@ theorem solverNew_invN {KIw : List Kkt.ConeSpec → Nat → Nat → KktSolver α
     show (Array.replicate A.m (0 : α)).size = p.keep.size
     rw [Array.size_replicate, hrow2 p hp]
 
+/-! ### the kinds of cones of the solver object come from the user's list -/
+
+/-- the user's cone list has an exponential / a nonsymmetric cone -/
+def userHasExp (cones : List (ConeT α)) : Prop := ConeT.exp ∈ cones
+def userHasNonsym (cones : List (ConeT α)) : Prop :=
+  ∃ c ∈ cones, (c = ConeT.exp ∨ (∃ a, c = ConeT.pow a) ∨ ∃ al d2, c = ConeT.genpow al d2)
+
+/-- the KKT view of a symmetric cone object is never a nonsymmetric kind -/
+theorem sym_kktSpec_kind (c : Solver.ConeSt α) :
+    c.kktSpec ≠ Kkt.ConeSpec.exp ∧ c.kktSpec ≠ Kkt.ConeSpec.pow ∧
+      ∀ a b, c.kktSpec ≠ Kkt.ConeSpec.genpow a b := by
+  cases c <;> exact ⟨fun h => (by cases h), fun h => (by cases h), fun a b h => (by cases h)⟩
+
+/-- [S] `make_cone` keeps the kind of the cone -/
+theorem makeCone_kind {t : ConeT α} {c : ConeSt α} (h : makeCone t = .ok c) :
+    (c.kktSpec = Kkt.ConeSpec.exp → t = ConeT.exp) ∧
+    (c.kktSpec = Kkt.ConeSpec.pow → ∃ a, t = ConeT.pow a) ∧
+    (∀ a b, c.kktSpec = Kkt.ConeSpec.genpow a b → ∃ al d2, t = ConeT.genpow al d2) := by
+  have hsym : ∀ c0 : Solver.ConeSt α, (ConeSt.sym c0).kktSpec = c0.kktSpec := fun _ => rfl
+  cases t with
+  | exp =>
+    cases h
+    exact ⟨fun _ => rfl, fun e => (by cases e), fun a b e => (by cases e)⟩
+  | pow a =>
+    cases h
+    exact ⟨fun e => (by cases e), fun _ => ⟨a, rfl⟩, fun a b e => (by cases e)⟩
+  | genpow al d2 =>
+    unfold makeCone at h
+    obtain ⟨ψ, _, h⟩ := bind_ok_inv h
+    cases h
+    exact ⟨fun e => (by cases e), fun e => (by cases e), fun _ _ _ => ⟨al, d2, rfl⟩⟩
+  | zero n =>
+    unfold makeCone at h
+    obtain ⟨c0, hc0, h⟩ := bind_ok_inv h
+    cases h
+    obtain ⟨h1, h2, h3⟩ := sym_kktSpec_kind c0
+    exact ⟨fun e => absurd e h1, fun e => absurd e h2, fun a b e => absurd e (h3 a b)⟩
+  | nonneg n =>
+    unfold makeCone at h
+    obtain ⟨c0, hc0, h⟩ := bind_ok_inv h
+    cases h
+    obtain ⟨h1, h2, h3⟩ := sym_kktSpec_kind c0
+    exact ⟨fun e => absurd e h1, fun e => absurd e h2, fun a b e => absurd e (h3 a b)⟩
+  | soc n =>
+    unfold makeCone at h
+    obtain ⟨c0, hc0, h⟩ := bind_ok_inv h
+    cases h
+    obtain ⟨h1, h2, h3⟩ := sym_kktSpec_kind c0
+    exact ⟨fun e => absurd e h1, fun e => absurd e h2, fun a b e => absurd e (h3 a b)⟩
+  | psd n =>
+    unfold makeCone at h
+    obtain ⟨c0, hc0, h⟩ := bind_ok_inv h
+    cases h
+    obtain ⟨h1, h2, h3⟩ := sym_kktSpec_kind c0
+    exact ⟨fun e => absurd e h1, fun e => absurd e h2, fun a b e => absurd e (h3 a b)⟩
+
+/-- every cone object of `CompositeCone::new` was built by `make_cone` from a cone of the list -/
+theorem makeCones_mem : ∀ {ts : List (ConeT α)} {K : List (ConeSt α)}, makeCones ts = .ok K →
+    ∀ c ∈ K, ∃ t ∈ ts, makeCone t = .ok c := by
+  intro ts
+  induction ts with
+  | nil => intro K h; cases h; intro c hc; cases hc
+  | cons t ts ih =>
+    intro K h
+    unfold makeCones at h
+    simp only [List.mapM_cons] at h
+    obtain ⟨c0, hc0, h⟩ := bind_ok_inv h
+    obtain ⟨cs', hcs, h⟩ := bind_ok_inv h
+    cases h
+    intro c hc
+    rcases List.mem_cons.mp hc with e | e
+    · subst e; exact ⟨t, List.mem_cons_self .., hc0⟩
+    · obtain ⟨t', ht', h'⟩ := ih hcs c e
+      exact ⟨t', List.mem_cons_of_mem _ ht', h'⟩
+
+/-- the cone objects of the solver object `DefaultSolver::new` returns are built from nonnegative
+cones and cones of the user's list -/
+theorem solverNew_cones_mem {P : Csc α} {q : Array α} {A : Csc α} {b : Array α}
+    {cones : List (ConeT α)} {st : Settings α} {perm : Array Nat} {S : Solver α}
+    (h : Solver.new P q A b cones st perm = .ok S) :
+    ∀ c ∈ S.st.cones, ∃ t, (t.isNonneg = true ∨ t ∈ cones) ∧ makeCone t = .ok c := by
+  unfold Solver.new at h
+  obtain ⟨_, _, h⟩ := bind_ok_inv h
+  obtain ⟨S0, hS0, h⟩ := bind_ok_inv h
+  cases h
+  unfold SolverSt.new at hS0
+  obtain ⟨d, hd, hS0⟩ := bind_ok_inv hS0
+  obtain ⟨K, hK, hS0⟩ := bind_ok_inv hS0
+  obtain ⟨ks, hks, hS0⟩ := bind_ok_inv hS0
+  cases hS0
+  unfold internalData at hd
+  obtain ⟨d0, hd0, hd⟩ := bind_ok_inv hd
+  obtain ⟨K0, hK0, hd⟩ := bind_ok_inv hd
+  split at hd
+  · cases hd
+  · obtain ⟨e1, _, _⟩ := Solver.equilibrate_dim hd
+    intro c hc
+    obtain ⟨t, ht, hc'⟩ := makeCones_mem hK c hc
+    rw [e1] at ht
+    exact ⟨t, Solver.problemDataNew_cones hd0 t ht, hc'⟩
+
+/-- [S] **the composite cone of the solver object has an exponential (nonsymmetric) cone only if
+the user's cone list has one** (collapse / presolve only add nonnegative cones; `make_cone` keeps
+the kind).  No well-formedness hypothesis is needed. -/
+theorem new_cone_kinds {P : Csc α} {q : Array α} {A : Csc α} {b : Array α}
+    {cones : List (ConeT α)} {st : Settings α} {perm : Array Nat} {S : Solver α}
+    (h : Solver.new P q A b cones st perm = .ok S) :
+    (hasExp (S.st.cones.map ConeSt.kktSpec) → userHasExp cones) ∧
+    (hasNonsym (S.st.cones.map ConeSt.kktSpec) → userHasNonsym cones) := by
+  have hmem := solverNew_cones_mem h
+  constructor
+  · intro he
+    obtain ⟨c, hc, e⟩ := List.mem_map.mp he
+    obtain ⟨t, ht, hmk⟩ := hmem c hc
+    have := (makeCone_kind hmk).1 e
+    subst this
+    rcases ht with ht | ht
+    · cases ht
+    · exact ht
+  · rintro ⟨sp, hsp, hk⟩
+    obtain ⟨c, hc, e⟩ := List.mem_map.mp hsp
+    subst e
+    obtain ⟨t, ht, hmk⟩ := hmem c hc
+    obtain ⟨k1, k2, k3⟩ := makeCone_kind hmk
+    have hkind : t = ConeT.exp ∨ (∃ a, t = ConeT.pow a) ∨ ∃ al d2, t = ConeT.genpow al d2 := by
+      rcases hk with hk | hk | ⟨a, b, hk⟩
+      · exact Or.inl (k1 hk)
+      · exact Or.inr (Or.inl (k2 hk))
+      · exact Or.inr (Or.inr (k3 a b hk))
+    refine ⟨t, ?_, hkind⟩
+    rcases ht with ht | ht
+    · rcases hkind with rfl | ⟨a, rfl⟩ | ⟨al, d2, rfl⟩ <;> cases ht
+    · exact ht
+
 /-! ### non-vacuity -/
 
 section Example
